@@ -37,79 +37,114 @@ class Boom(Exception):
 
 
 # ====================================================================================== WSGI event stream on threads
-def run_wsgi_sse(prefix, n_items, raise_at, consume, line_points, max_timeouts, empty_at=None):
+def run_wsgi_sse(prefix, n_items, raise_at, consume, line_points, max_timeouts, empty_at=None, cleanup_raises=False, streams=1):
+    """One execution of `streams` WSGI event-stream responses (each with its own server thread and producer) under the baton
+    scheduler. The library's own ThreadPoolExecutor subclass stays in the loop: only the base class's submit() is redirected
+    to the controlled-thread pool, so baize's submit() wrapper (context copy) runs for real."""
     import baize.wsgi.responses as WR
+    import baize.concurrency as BC
+    import concurrent.futures.thread as CFT
 
     S = VT.Sched(prefix, max_timeouts=max_timeouts)
     VT.set_current(S)
-    obs = {"enter": 0, "exit": 0, "yielded": [], "got": [], "closed_ret": False, "server_exc": None, "start_calls": 0}
+    all_obs = [{"enter": 0, "exit": 0, "yielded": [], "got": [], "closed_ret": False, "server_exc": None, "start_calls": 0} for _ in range(streams)]
 
-    def gen():
-        obs["enter"] += 1
-        try:
-            for i in range(n_items):
-                S.point("gen")
-                if raise_at == i:
-                    raise Boom(i)
-                obs["yielded"].append(i)
-                yield ({} if i == empty_at else {"data": str(i)})  # an empty event dictionary is falsy
-            S.point("gen-end")
-            if raise_at == n_items:
-                raise Boom("end")
-        finally:
-            obs["exit"] += 1
+    def make_gen(obs):
+        def gen():
+            obs["enter"] += 1
+            try:
+                for i in range(n_items):
+                    S.point("gen")
+                    if raise_at == i:
+                        raise Boom(i)
+                    obs["yielded"].append(i)
+                    yield ({} if i == empty_at else {"data": str(i)})  # an empty event dictionary is falsy
+                S.point("gen-end")
+                if raise_at == n_items:
+                    raise Boom("end")
+            finally:
+                obs["exit"] += 1
+                if cleanup_raises:
+                    raise Boom("cleanup")
+        return gen()
 
-    g = gen()
-    old_queue, old_pool = WR.queue, WR.SendEventResponse.thread_pool
+    gens = [make_gen(o) for o in all_obs]
+    old_queue, old_pool, old_submit = WR.queue, WR.SendEventResponse.thread_pool, CFT.ThreadPoolExecutor.submit
     WR.queue = VT.ShimQueueModule
-    pool = VT.ShimPool()
+    shim = VT.ShimPool()
+    CFT.ThreadPoolExecutor.submit = lambda self, fn, *a, **kw: shim.submit(fn, *a, **kw)
+    pool = BC.ThreadPoolExecutor(max_workers=4)  # the library's class; no real worker thread is ever started
     WR.SendEventResponse.thread_pool = pool
     if line_points:
         S.trace_code(WR.SendEventResponse.render_stream)
 
-    def server():
-        def start_response(status, headers, exc_info=None):
-            obs["start_calls"] += 1
-        r = WR.SendEventResponse(g, ping_interval=1)
-        it = iter(r({"REQUEST_METHOD": "GET"}, start_response))
-        try:
-            k = 0
-            while consume is None or k < consume:
-                S.point("server-next")
-                try:
-                    obs["got"].append(next(it))
-                except StopIteration:
-                    obs["exhausted"] = True
-                    break
-                k += 1
-        except Boom as e:
-            obs["server_exc"] = "Boom"
-        try:
-            S.point("server-close")
-            it.close()
-            obs["closed_ret"] = True
-        except Boom:
-            obs["server_exc"] = "Boom"
-            obs["closed_ret"] = True
+    def make_server(obs, g):
+        def server():
+            def start_response(status, headers, exc_info=None):
+                obs["start_calls"] += 1
+            r = WR.SendEventResponse(g, ping_interval=1)
+            it = iter(r({"REQUEST_METHOD": "GET"}, start_response))
+            try:
+                k = 0
+                while consume is None or k < consume:
+                    S.point("server-next")
+                    try:
+                        obs["got"].append(next(it))
+                    except StopIteration:
+                        obs["exhausted"] = True
+                        break
+                    k += 1
+            except Boom:
+                obs["server_exc"] = "Boom"
+            except RuntimeError as e:  # e.g. a failure of the pool's work item surfacing through the response
+                obs["server_exc"] = f"RuntimeError: {e}"
+            try:
+                S.point("server-close")
+                it.close()
+                obs["closed_ret"] = True
+            except Boom:
+                obs["server_exc"] = "Boom"
+                obs["closed_ret"] = True
+            except RuntimeError as e:
+                obs["server_exc"] = f"RuntimeError: {e}"
+                obs["closed_ret"] = True
+        return server
+
+    servers = [make_server(o, g) for o, g in zip(all_obs, gens)]
+
+    def main():
+        for k, sv in enumerate(servers[1:], 2):
+            S.spawn(f"server{k}", sv)
+        servers[0]()
 
     try:
-        ok = S.start("server", server)
+        ok = S.start("server", main)
     finally:
         WR.queue, WR.SendEventResponse.thread_pool = old_queue, old_pool
+        CFT.ThreadPoolExecutor.submit = old_submit
         VT.set_current(None)
+    obs = all_obs[0]
+    obs["others"] = all_obs[1:]
     obs["watchdog"] = not ok
     obs["deadlock"] = S.deadlock
     obs["livelock"] = S.livelock
     obs["blocked"] = getattr(S, "blocked", None)
     obs["thread_exc"] = [(t.name, repr(t.exc)) for t in S.threads if t.exc is not None]
-    obs["gen_state"] = inspect.getgeneratorstate(g)
+    obs["gen_state"] = inspect.getgeneratorstate(gens[0])
+    for o, g in zip(all_obs[1:], gens[1:]):
+        o["gen_state"] = inspect.getgeneratorstate(g)
     obs["trace"] = S.trace
-    obs["pool_futures"] = [f.state for f in pool.futures]
+    obs["pool_futures"] = [f.state for f in shim.futures]
     return S.execution(obs)
 
 
-def judge_wsgi_sse(o, n_items, raise_at, consume, empty_at=None):
+def judge_wsgi_sse(o, n_items, raise_at, consume, empty_at=None, cleanup_raises=False):
     p = []
+    for k, other in enumerate(o.get("others", ()), 2):
+        sub = dict(other, others=(), watchdog=o["watchdog"], deadlock=o["deadlock"], livelock=o["livelock"], blocked=o["blocked"], thread_exc=[], pool_futures=o["pool_futures"])
+        p += [f"stream {k}: {x}" for x in judge_wsgi_sse(sub, n_items, raise_at, consume, empty_at, cleanup_raises)]
+    if p:
+        return p
     if o["watchdog"]:
         return ["harness watchdog expired (a thread neither finished nor reached a scheduling point)"]
     if o["deadlock"]:
@@ -147,8 +182,10 @@ def judge_wsgi_sse(o, n_items, raise_at, consume, empty_at=None):
     if ran_out:
         if raise_at is None and data != list(range(n_items)):
             p.append(f"stream ran to its end but delivered {data} of {list(range(n_items))}")
-        if raise_at is not None and o["server_exc"] != "Boom":
+        if (raise_at is not None or (cleanup_raises and o["enter"])) and o["server_exc"] != "Boom":
             p.append("the producer's exception did not surface although the response was read to its end")
+        if raise_at is None and not cleanup_raises and o["server_exc"]:
+            p.append(f"the response raised {o['server_exc']} although the producer did not fail")
         if raise_at is not None and data != list(range(raise_at)):
             p.append(f"items yielded before the failure were lost: delivered {data}")
     return p
@@ -409,7 +446,14 @@ def wsgi_configs(tier):
         # an empty event that is neither first nor last, with the consumer closing at every point
         for consume in (1, 2, 3, None):
             out.append((3, None, consume, 0, 1))
-    return out
+    base = len(out)
+    # a producer whose cleanup code raises; two responses whose lifetimes overlap (they share the pool)
+    for n in (1, 2):
+        for consume in list(range(0, n + 2)) + [None]:
+            out.append((n, None, consume, 0, None, True, 1))
+    for consume in (0, 1, None):
+        out.append((1, None, consume, 0, None, False, 2))
+    return [c if len(c) == 7 else c + (False, 1) for c in out]
 
 
 def asgi_configs(tier):
@@ -449,22 +493,22 @@ def bounds_for(tier):
 def run_shard(desc, tier):
     r = R()
     if desc[0] == "wsgi_sse":
-        n, raise_at, consume, timeouts, empty_at = wsgi_configs(tier)[desc[1]]
+        n, raise_at, consume, timeouts, empty_at, cleanup_raises, streams = wsgi_configs(tier)[desc[1]]
         outcomes = set()
-        for line_points, bound in bounds_for(tier):
+        for line_points, bound in (bounds_for(tier) if streams == 1 else [(False, 1 if tier == "quick" else 2)]):
             def run(prefix):
-                return run_wsgi_sse(prefix, n, raise_at, consume, line_points, timeouts, empty_at)
+                return run_wsgi_sse(prefix, n, raise_at, consume, line_points, timeouts, empty_at, cleanup_raises, streams)
 
             def on_exec(x):
                 r.count("evaluations")
                 r.count("traces")
                 r.count("transitions", len(x.choices))
-                probs = judge_wsgi_sse(x.obs, n, raise_at, consume, empty_at)
+                probs = judge_wsgi_sse(x.obs, n, raise_at, consume, empty_at, cleanup_raises)
                 outcomes.add((x.obs["deadlock"], x.obs["enter"], x.obs["exit"], len(x.obs["got"]), x.obs["server_exc"], tuple(x.obs["pool_futures"])))
                 if probs:
                     kind = "deadlock" if "DEADLOCK" in probs[0] else ("livelock" if "LIVELOCK" in probs[0] else probs[0].split(" ")[0])
-                    r.violation(f"wsgi_sse:{kind}", {"driver": "wsgi_sse", "n": n, "raise_at": raise_at, "consume": consume, "timeouts": timeouts, "empty_at": empty_at, "line_points": line_points, "schedule": list(x.choices)},
-                                f"WSGI SendEventResponse, producer of {n} items (fails at {raise_at}, empty event at {empty_at}), server takes {consume} items then close(), {timeouts} ping timeout(s), schedule {x.obs['trace'][-14:]}: {probs[0]}")
+                    r.violation(f"wsgi_sse:{kind}", {"driver": "wsgi_sse", "n": n, "raise_at": raise_at, "consume": consume, "timeouts": timeouts, "empty_at": empty_at, "cleanup_raises": cleanup_raises, "streams": streams, "line_points": line_points, "schedule": list(x.choices)},
+                                f"WSGI SendEventResponse, producer of {n} items (fails at {raise_at}, empty event at {empty_at}, cleanup raises: {cleanup_raises}, {streams} overlapping stream(s)), server takes {consume} items then close(), {timeouts} ping timeout(s), schedule {x.obs['trace'][-14:]}: {probs[0]}")
             nexec, capped = dfs(run, on_exec, bound=bound)
         r.count("states", len(outcomes))
         if consume is not None and consume <= n:
@@ -509,8 +553,8 @@ def finish(merged, tier):
 
 def replay(w):
     if w["driver"] == "wsgi_sse":
-        x = run_wsgi_sse(list(w["schedule"]), w["n"], w["raise_at"], w["consume"], w["line_points"], w["timeouts"], w.get("empty_at"))
-        probs = judge_wsgi_sse(x.obs, w["n"], w["raise_at"], w["consume"], w.get("empty_at"))
+        x = run_wsgi_sse(list(w["schedule"]), w["n"], w["raise_at"], w["consume"], w["line_points"], w["timeouts"], w.get("empty_at"), w.get("cleanup_raises", False), w.get("streams", 1))
+        probs = judge_wsgi_sse(x.obs, w["n"], w["raise_at"], w["consume"], w.get("empty_at"), w.get("cleanup_raises", False))
         return bool(probs), {"problems": probs, "trace": x.obs["trace"][-30:]}
     if w["driver"] == "wsgi_stream":
         r = R()
